@@ -11,6 +11,7 @@ import DarsiaModel.Basic
 import DarsiaModel.SignalModels
 import DarsiaModel.SignalOps
 import DarsiaModel.KernelInterp
+import DarsiaGen.SignalTables
 open Darsia Darsia.Sig
 
 def pOptRat : P (Option Rat) := P.opt P.rat
@@ -201,7 +202,7 @@ def pResize : P String := do
   let h ← P.nat; let w ← P.nat; let H ← P.nat; let W ← P.nat
   let rows ← P.rep (P.rep P.nat w) h
   P.done
-  pure (" ; ".intercalate ((labelsFor rows H W).map showNats))
+  pure (" ; ".intercalate ((labelsFor Gen.nearDev rows H W).map showNats))
 
 /-- `labelseq h w v.. | k H W ..` : the label map in force after calls with signals of these shapes -/
 def pLabelSeq : P String := do
@@ -210,7 +211,7 @@ def pLabelSeq : P String := do
   bar
   let shapes ← P.list (do let a ← P.nat; let b ← P.nat; pure (a, b))
   P.done
-  pure (" ; ".intercalate ((cacheRun rows shapes).map showNats))
+  pure (" ; ".intercalate ((cacheRun Gen.nearDev rows shapes).map showNats))
 
 def dispatch : List String → Option String
   | "kern" :: rest => (pKern.run rest).map (·.1)
